@@ -17,6 +17,7 @@ def scenario(w):
                 spec = tuple(op[1])
                 a = w['fills'][spec[1]] if spec[0] == 'fill' else fresh.get(spec, [777000 + spec[1]])
                 ops.append(f"call {name} 0 " + ' '.join(map(str, a)))
+            elif op[0] == 'call_first': ops.append(f"call {op[1]} 0 " + ' '.join(['424242'] * len(subs[op[1]]['args'])))
             elif op[0] == 'inv_with':
                 keys = [k.replace(' ', '%20') for cn, k, b in w.get('pred', []) if b]
                 ops.append('inv_with ' + cname + ' ' + ' '.join(keys))
@@ -26,7 +27,7 @@ def scenario(w):
             elif op[0] in ('stats_get', 'stats_reset'): ops.append(f'{op[0]} {cname}')
         L.append(f'conc_thread {ti} ' + ' / '.join(ops))
     ev = [e for e in w['locks'] if e[0] == 'lock']
-    L.append('conc_sched ' + ' '.join(f"{e[1]}:{e[4]}:{e[5]}" for e in ev))
+    L.append('conc_sched ' + ' '.join([f"{e[1]}:{e[4]}:{e[5]}" for e in ev] + [f"{b[0]}:{b[3]}:1:a" for b in (w.get('attempts') or [])]))
     L.append('stats ' + cname)
     L.append('execs')
     L.append('conc_run')
